@@ -92,10 +92,18 @@ FCase(j) ==
   IN [body |-> <<PrintS(Pipe(A, fl, names)), Text("|"), FilterS(<<fl>>, <<PrintS(A)>>)>>, a |-> va, args |-> args, filter |-> fl]
 NFil == NF * NO * (1 + NFA + NFA * NFA)
 
+(* argument combinations worth a case of their own whatever the seed *)
+Specials == << [filter |-> "batch", a |-> Arr(<<IntV(1)>>), args |-> <<Go("huge:1e18"), Str(S2B("x"))>>],
+               [filter |-> "batch", a |-> Arr(<<IntV(1), IntV(2), IntV(3)>>), args |-> <<Go("huge:1e300"), IntV(0)>>],
+               [filter |-> "batch", a |-> Go("slice:int:1,2"), args |-> <<Go("big:int64:max"), Str(S2B("x"))>>],
+               [filter |-> "round", a |-> Num(96), args |-> <<Go("huge:1e18"), Str(S2B("ceil"))>>],
+               [filter |-> "slice", a |-> Arr(<<IntV(1)>>), args |-> <<Go("huge:1e18"), Go("huge:-1e19")>>],
+               [filter |-> "number_format", a |-> Num(96), args |-> <<Go("huge:1e18"), Str(S2B(","))>>] >>
+NSp == Len(Specials)
 Total == NOps + NFil
 (* every filter x every value with no argument and with every single argument; two-argument lists by a seeded stride *)
 NFil1 == NF * NO * (1 + NFA)
-Picked == (0..(NOps + NFil1 - 1))
+Picked == (0..(NOps + NFil1 - 1)) \cup ((NOps + NFil)..(NOps + NFil + NSp - 1))
           \cup {NOps + NFil1 + SeedMod(FStride) + FStride * m : m \in 0..((NFil - NFil1 - 1 - SeedMod(FStride)) \div FStride)}
 Init == GenInit(v_lvl, v_idx)
 Next == GenNext(v_lvl, v_idx, Picked, 64)
@@ -112,7 +120,8 @@ Vecc(j) ==
     IN [id |-> "C02-" \o ToString(j), fam |-> "ops", k |-> "render", env |-> "core", tpls |-> tpls, entry |-> "t", ctx |-> ctx,
         nolog |-> TRUE, x |-> [form |-> c.form], ref |-> st]
   ELSE
-    LET c == FCase(j - NOps)
+    LET c == IF j >= NOps + NFil THEN [Specials[j - NOps - NFil + 1] EXCEPT !.a = @] @@ [body |-> <<PrintS(Pipe(A, Specials[j - NOps - NFil + 1].filter, <<NameE("p1"), NameE("p2")>>))>>]
+             ELSE FCase(j - NOps)
         ctx == ("a" :> c.a) @@ [n \in {"p" \o ToString(q) : q \in 1..Len(c.args)} |->
                                    c.args[CHOOSE q \in 1..Len(c.args) : n = "p" \o ToString(q)]]
     IN [id |-> "C02-" \o ToString(j), fam |-> "filters", k |-> "render", env |-> "twig", tpls |-> ("t" :> c.body), entry |-> "t",
